@@ -405,6 +405,22 @@ class Gen:
             self.note("op:len")
             n = len(fv)
             return "%s.len(): %s" % (fname, self.pat(USize(), n, depth + 1, nested=False))
+        if isinstance(ft, Vec) and 0.5 <= r < 0.6 and not isinstance(ft.t, Bx):
+            # a slice-like value that is not a Vec: slice::Iter prints as Iter([..]) and matches as its slice
+            self.note("op:iter")
+            n = len(fv)
+            hit = rng.random() < self.hit
+            sub = lambda i: self.pat(ft.t, fv[i], depth + 1)     # noqa: E731
+            f = rng.choice(["exact", "exact", "rest_end", "only_rest"])
+            if f == "only_rest":
+                return "%s.iter(): [..]" % fname
+            if f == "exact":
+                k = n if (hit or n == 0) else (n - 1 if rng.random() < 0.5 else n + 1)
+                items = [sub(i) for i in range(min(k, n))] + [self.pat_any(ft.t, depth) for _ in range(max(0, k - n))]
+                return "%s.iter(): [%s]" % (fname, ", ".join(items))
+            k = rng.randint(0, n) if hit else n + 1
+            items = [sub(i) for i in range(min(k, n))] + [self.pat_any(ft.t, depth) for _ in range(max(0, k - n))]
+            return "%s.iter(): [%s]" % (fname, ", ".join(items + [".."]))
         if isinstance(ft, Vec) and r < 0.5 and fv and not isinstance(ft.t, Bx) and not getattr(self, "no_index", False):
             i = rng.randrange(len(fv))
             self.note("op:index")
